@@ -1,4 +1,5 @@
 import Ts.Order
+import Ts.DeploySpec
 
 /-! # C10 — property theorems (statements only; proofs live in the family libraries)
 
@@ -23,6 +24,20 @@ theorem orderValid_sound :
 theorem down_sound :
     ∀ (items : List Item) (i q : Nat) (h : q ∈ down items i), Down items i q :=
   @Ord.down_sound
+end
+
+section
+open Dp
+
+/-- deployment (model of Pipeline.DeployItem, compared with the real function on a synthetic registry on every run): for
+a registry with distinct item names the leaf is added, followed by exactly the items reachable from it through
+requirements that are enabled under the features in force and not already present - nothing else, nothing twice -/
+theorem deploy_spec :
+    ∀ (reg : List DItem) (hreg : (names reg).Nodup) (feats0 present : List Nat) (leaf : DItem),
+    ∃ rest, deploy reg feats0 present leaf = leaf :: rest ∧ (names rest).Nodup ∧
+      (∀ x ∈ rest, x.name ∉ present ++ [leaf.name]) ∧
+      (∀ x, x ∈ rest ↔ New reg (feats0 ++ leaf.features) (present ++ [leaf.name]) leaf x) :=
+  @Dp.deploy_spec
 end
 
 end Props.C10
